@@ -14,6 +14,7 @@
                         k = "add",  ts = types, n = name, x = "res" | "res2" | "fac" | "afac"   publish a resource (res2: right
                                     after an unrelated publication, no checkpoint in between) / a (async) factory
                         k = "get",  ts = <<type>>, n = name, x = "wait" | "opt" | "nowait"
+                        k = "svc"                                         start a service task (stopped when the surrounding context is left)
    A resource added under the name "default" during start() appears under the component's default resource name (drn).        *)
 EXTENDS Naturals, Sequences, FiniteSets, TLC, SequencesExt
 CONSTANTS MaxComps, PrepOps, StartOps, MinLen, MaxLen, Faults, Timeouts, Drns
@@ -111,6 +112,9 @@ DoOp(r, c) ==
       op == Script(c, ph)[r.ip[c]]
       r0 == Emit(r, [ev |-> "step", c |-> c]) IN
   IF op.k = "noop" THEN [r0 EXCEPT !.ip[c] = @ + 1]
+  \* a service task started by the component belongs to the surrounding context like any other registration: it is stopped,
+  \* in its place in the reverse order, when that context is left
+  ELSE IF op.k = "svc" THEN Emit([r0 EXCEPT !.ip[c] = @ + 1, !.regs = Append(@, <<c, "svc" \o ToString(r.ip[c])>>)], [ev |-> "reg", id |-> <<c, "svc" \o ToString(r.ip[c])>>])
   ELSE IF op.k = "add" THEN
        LET n == EffName(c, ph, op.n)
            kind == IF op.x \in {"res", "res2"} THEN "res" ELSE "fac"
